@@ -120,48 +120,50 @@ def setter_scenarios(cls='Derivative', dim=None, tier='quick'):
 
 def sequence_scenarios(cls='Derivative', dim=None, tier='quick', seed=0):
     """Operation sequences generated from an alphabet (every op is followed by a call): set n / order / method /
-    full_output on one object.  The thorough tier runs all sequences of length <= 3 over the alphabet, the quick tier a
-    seeded sample; the last call is compared with a fresh object in the final configuration."""
+    full_output on one object, from several starting configurations.  The thorough tier runs all sequences of length <= 3
+    (central start) resp. <= 2 (other starts) over the alphabet, the quick tier a seeded sample; the last call is compared
+    with a fresh object in the final configuration."""
     import itertools
     import random
-    ops = [('method', 'forward'), ('method', 'central'), ('method', 'complex'), ('order', 4), ('order', 2), ('full_output', True),
-           ('full_output', False)]
+    ops = [('method', 'forward'), ('method', 'central'), ('method', 'complex'), ('method', 'backward'), ('order', 4), ('order', 2),
+           ('order', 3), ('full_output', True), ('full_output', False)]
     if cls == 'Derivative':
         ops += [('n', 2), ('n', 1), ('n', 3), ('n', 0)]
     if cls == 'Hessian':
         ops = [o for o in ops if o[0] != 'order']
-    seqs = []
-    for L in (2, 3):
-        seqs += list(itertools.product(ops, repeat=L))
-    seqs = [q for q in seqs if all(q[i][0] != q[i + 1][0] or q[i][1] != q[i + 1][1] for i in range(len(q) - 1))]
-    if tier == 'quick':
-        rnd = random.Random(1000 + seed)
-        seqs = rnd.sample(seqs, 24)
+    starts = [('central', 2), ('forward', 3), ('backward', 1), ('complex', 4)]
+    if cls == 'Hessian':
+        starts = [('central', None), ('forward', None)]
     out = []
     n0 = 1 if cls == 'Derivative' else None
-    for q in seqs:
-        cfg = {'method': 'central', 'order': 2, 'n': n0, 'full_output': False}
-        for a, v in q:
-            cfg[a] = v
-        if cfg['method'] == 'complex' and cls in ('Hessian',) and False:
-            continue
-
-        def history(P, q=q):
-            gen = P.sym_generator('Min', num_extrap=1)
-            obj, x = P.build(cls, 'central', None if cls == 'Hessian' else 2, n=n0, step=gen, dim=dim)
-            I = P.interp
-            I.getattr(obj, '_derivative')(x, (), {})
+    for si, (m0, o0) in enumerate(starts):
+        seqs = []
+        for L in ((2, 3) if si == 0 else (1, 2)):
+            seqs += list(itertools.product(ops, repeat=L))
+        seqs = [q for q in seqs if all(q[i] != q[i + 1] for i in range(len(q) - 1)) and q[0] != ('method', m0) and q[0] != ('order', o0)]
+        if tier == 'quick':
+            rnd = random.Random(1000 + seed + si)
+            seqs = rnd.sample(seqs, 10 if si == 0 else 6)
+        for q in seqs:
+            cfg = {'method': m0, 'order': o0, 'n': n0, 'full_output': False}
             for a, v in q:
-                I.setattr(obj, a, v)
-                I.getattr(obj, '_derivative')(x, (), {})
-            return obj, x
+                cfg[a] = v
 
-        def fresh(P, cfg=dict(cfg)):
-            gen = P.sym_generator('Min', num_extrap=1)
-            return P.build(cls, cfg['method'], None if cls == 'Hessian' else cfg['order'], n=cfg['n'], step=gen, dim=dim,
-                           full_output=cfg['full_output'])
-        name = '%s(central) ; call ; %s' % (cls, ' ; '.join('%s=%s ; call' % op for op in q))
-        out.append(Scenario(name, history, fresh, 'generated sequence'))
+            def history(P, q=q, m0=m0, o0=o0):
+                gen = P.sym_generator('Min', num_extrap=1)
+                obj, x = P.build(cls, m0, o0, n=n0, step=gen, dim=dim)
+                I = P.interp
+                I.getattr(obj, '_derivative')(x, (), {})
+                for a, v in q:
+                    I.setattr(obj, a, v)
+                    I.getattr(obj, '_derivative')(x, (), {})
+                return obj, x
+
+            def fresh(P, cfg=dict(cfg)):
+                gen = P.sym_generator('Min', num_extrap=1)
+                return P.build(cls, cfg['method'], cfg['order'], n=cfg['n'], step=gen, dim=dim, full_output=cfg['full_output'])
+            name = '%s(%s, order=%s) ; call ; %s' % (cls, m0, o0, ' ; '.join('%s=%s ; call' % op for op in q))
+            out.append(Scenario(name, history, fresh, 'generated sequence'))
     return out
 
 
